@@ -499,6 +499,19 @@ def _callee_params(repo: Repo, fi: FunctionInfo, c: ast.Call) -> tuple[str, list
         if m is not None:
             return m.short, [p for p in m.params() if p not in ("self", "cls")]
         return None
+    if isinstance(f, ast.Attribute):
+        # method on a typed receiver (annotated attribute / parameter / local)
+        try:
+            from glint.callgraph import env_of
+
+            t = env_of(repo, fi).type_of(f.value)
+            classes = sorted(getattr(t, "classes", ()) or ())
+        except Exception:
+            classes = []
+        if len(classes) == 1:
+            m = repo.find_method(classes[0], f.attr)
+            if m is not None:
+                return m.short, [p for p in m.params() if p not in ("self", "cls")]
     q = resolved(repo, fi, f)
     if q in repo.functions:
         g = repo.functions[q]
